@@ -1,1 +1,277 @@
-pub use iou_real::*;
+#![allow(clippy::all, clippy::pedantic)]
+//! Simulated io_uring. `opcode`, `squeue::Entry`, `types` are the real crate's (they only build the
+//! 64-byte submission entry); the rings and the kernel side are replaced: `submit` hands every queued
+//! entry to a policy function installed by the harness, which decides the completion's result and
+//! after how much simulated time it appears in the completion queue.
+pub use iou_real::{opcode, types};
+use std::collections::VecDeque;
+use std::sync::Mutex as StdMutex;
+use vstd::sim;
+
+pub mod squeue {
+    pub use iou_real::squeue::{Entry, Flags, PushError};
+}
+
+pub mod cqueue {
+    /// A completion: the submission's user_data and its result.
+    #[derive(Clone, Copy, Debug)]
+    pub struct Entry {
+        pub(crate) user_data: u64,
+        pub(crate) result: i32,
+    }
+    impl Entry {
+        pub fn user_data(&self) -> u64 {
+            self.user_data
+        }
+        pub fn result(&self) -> i32 {
+            self.result
+        }
+        pub fn flags(&self) -> u32 {
+            0
+        }
+    }
+}
+
+/// The fields of a submission the policy may look at.
+#[derive(Clone, Copy, Debug)]
+pub struct Sqe {
+    pub opcode: u8,
+    pub fd: i32,
+    pub off: u64,
+    pub addr: u64,
+    pub len: u32,
+    pub op_flags: u32,
+    pub user_data: u64,
+}
+
+fn decode(e: &squeue::Entry) -> Sqe {
+    // struct io_uring_sqe (64 bytes): opcode u8, flags u8, ioprio u16, fd i32, off u64, addr u64,
+    // len u32, op flags u32, user_data u64, ...
+    let raw: [u8; 64] = unsafe { std::mem::transmute_copy(e) };
+    let u32_at = |o: usize| u32::from_ne_bytes(raw[o..o + 4].try_into().expect("4"));
+    let u64_at = |o: usize| u64::from_ne_bytes(raw[o..o + 8].try_into().expect("8"));
+    Sqe {
+        opcode: raw[0],
+        fd: u32_at(4) as i32,
+        off: u64_at(8),
+        addr: u64_at(16),
+        len: u32_at(24),
+        op_flags: u32_at(28),
+        user_data: u64_at(32),
+    }
+}
+
+/// (result, delay in simulated ns). A negative result is -errno.
+pub type Policy = fn(&Sqe) -> (i32, u64);
+
+fn default_policy(_: &Sqe) -> (i32, u64) {
+    (0, 1_000_000)
+}
+
+static POLICY: StdMutex<Policy> = StdMutex::new(default_policy);
+static SUBMITTED: StdMutex<Vec<Sqe>> = StdMutex::new(Vec::new());
+
+pub fn vsim_set_policy(p: Policy) {
+    *POLICY.lock().unwrap_or_else(|e| e.into_inner()) = p;
+}
+
+/// Everything submitted so far (harness oracle).
+pub fn vsim_submitted() -> Vec<Sqe> {
+    SUBMITTED.lock().unwrap_or_else(|e| e.into_inner()).clone()
+}
+
+#[derive(Default)]
+struct Ring {
+    sq: VecDeque<squeue::Entry>,
+    /// (ready at, sequence, completion)
+    pending: Vec<(u64, u64, cqueue::Entry)>,
+    seq: u64,
+}
+
+pub struct IoUring {
+    cap: usize,
+    ring: StdMutex<Ring>,
+}
+
+impl std::fmt::Debug for IoUring {
+    fn fmt(&self, f: &mut std::fmt::Formatter<'_>) -> std::fmt::Result {
+        write!(f, "IoUring(sim, cap {})", self.cap)
+    }
+}
+
+#[derive(Default)]
+pub struct Builder;
+
+impl Builder {
+    pub fn setup_sqpoll(&mut self, _: u32) -> &mut Self {
+        self
+    }
+    pub fn setup_sqpoll_cpu(&mut self, _: u32) -> &mut Self {
+        self
+    }
+    pub fn build(&self, entries: u32) -> std::io::Result<IoUring> {
+        IoUring::new(entries)
+    }
+}
+
+/// Which opcodes the simulated kernel supports: all of them.
+#[derive(Debug, Default)]
+pub struct Probe;
+
+impl Probe {
+    pub fn new() -> Self {
+        Probe
+    }
+    pub fn is_supported(&self, _: u8) -> bool {
+        true
+    }
+}
+
+pub struct Submitter<'a> {
+    ring: &'a IoUring,
+}
+
+impl Submitter<'_> {
+    pub fn register_probe(&self, _: &mut Probe) -> std::io::Result<()> {
+        Ok(())
+    }
+    pub fn submit(&self) -> std::io::Result<usize> {
+        self.ring.submit()
+    }
+}
+
+pub struct SubmissionQueue<'a> {
+    ring: &'a IoUring,
+}
+
+impl SubmissionQueue<'_> {
+    /// # Safety
+    /// as the real queue: the entry's buffers must stay valid until completion
+    pub unsafe fn push(&mut self, e: &squeue::Entry) -> Result<(), PushErr> {
+        sim::point("uring.sq.push");
+        let mut r = self.ring.ring.lock().unwrap_or_else(|e| e.into_inner());
+        if r.sq.len() >= self.ring.cap {
+            return Err(PushErr);
+        }
+        r.sq.push_back(e.clone());
+        Ok(())
+    }
+    pub fn is_full(&self) -> bool {
+        self.ring.ring.lock().unwrap_or_else(|e| e.into_inner()).sq.len() >= self.ring.cap
+    }
+    pub fn is_empty(&self) -> bool {
+        self.ring.ring.lock().unwrap_or_else(|e| e.into_inner()).sq.is_empty()
+    }
+    pub fn sync(&mut self) {}
+}
+
+#[derive(Debug)]
+pub struct PushErr;
+
+pub struct CompletionQueue<'a> {
+    ring: &'a IoUring,
+}
+
+impl CompletionQueue<'_> {
+    pub fn sync(&mut self) {}
+    pub fn is_empty(&self) -> bool {
+        let now = sim::now_ns();
+        !self.ring.ring.lock().unwrap_or_else(|e| e.into_inner()).pending.iter().any(|p| p.0 <= now)
+    }
+}
+
+impl Iterator for CompletionQueue<'_> {
+    type Item = cqueue::Entry;
+    fn next(&mut self) -> Option<cqueue::Entry> {
+        sim::point("uring.cq.next");
+        let now = sim::now_ns();
+        let mut r = self.ring.ring.lock().unwrap_or_else(|e| e.into_inner());
+        let mut best: Option<usize> = None;
+        for (i, p) in r.pending.iter().enumerate() {
+            if p.0 <= now && best.is_none_or(|b| (p.0, p.1) < (r.pending[b].0, r.pending[b].1)) {
+                best = Some(i);
+            }
+        }
+        best.map(|i| {
+            sim::count("kern.uring-completion");
+            r.pending.remove(i).2
+        })
+    }
+}
+
+impl IoUring {
+    pub fn new(entries: u32) -> std::io::Result<IoUring> {
+        Ok(IoUring {
+            cap: entries.max(1) as usize,
+            ring: StdMutex::new(Ring::default()),
+        })
+    }
+    pub fn builder() -> Builder {
+        Builder
+    }
+    pub fn submitter(&self) -> Submitter<'_> {
+        Submitter { ring: self }
+    }
+    /// # Safety
+    /// as the real call
+    pub unsafe fn submission_shared(&self) -> SubmissionQueue<'_> {
+        SubmissionQueue { ring: self }
+    }
+    /// # Safety
+    /// as the real call
+    pub unsafe fn completion_shared(&self) -> CompletionQueue<'_> {
+        CompletionQueue { ring: self }
+    }
+    pub fn submit(&self) -> std::io::Result<usize> {
+        sim::point("uring.submit");
+        let policy = *POLICY.lock().unwrap_or_else(|e| e.into_inner());
+        let now = sim::now_ns();
+        let mut r = self.ring.lock().unwrap_or_else(|e| e.into_inner());
+        let mut n = 0;
+        while let Some(e) = r.sq.pop_front() {
+            let s = decode(&e);
+            let (result, delay) = if s.opcode == opcode::Timeout::CODE {
+                // the timespec the entry points to: { tv_sec: i64, tv_nsec: i64 }
+                let ts = unsafe { std::ptr::read(s.addr as *const [i64; 2]) };
+                let ns = (ts[0] as u64).saturating_mul(1_000_000_000).saturating_add(ts[1] as u64);
+                (-libc::ETIME, ns)
+            } else {
+                SUBMITTED.lock().unwrap_or_else(|e| e.into_inner()).push(s);
+                policy(&s)
+            };
+            r.seq += 1;
+            let seq = r.seq;
+            r.pending.push((
+                now.saturating_add(delay),
+                seq,
+                cqueue::Entry {
+                    user_data: s.user_data,
+                    result,
+                },
+            ));
+            n += 1;
+        }
+        Ok(n)
+    }
+    pub fn submit_and_wait(&self, want: usize) -> std::io::Result<usize> {
+        let n = self.submit()?;
+        if want > 0 {
+            // wait (simulated) until `want` completions are ready
+            loop {
+                let now = sim::now_ns();
+                let (ready, next) = {
+                    let r = self.ring.lock().unwrap_or_else(|e| e.into_inner());
+                    (r.pending.iter().filter(|p| p.0 <= now).count(), r.pending.iter().map(|p| p.0).filter(|t| *t > now).min())
+                };
+                if ready >= want || !sim::is_active() {
+                    break;
+                }
+                match next {
+                    Some(t) => vstd::thread::sleep(std::time::Duration::from_nanos(t - now)),
+                    None => break,
+                }
+            }
+        }
+        Ok(n)
+    }
+}
